@@ -1,29 +1,49 @@
 """One function per property: selects engines and workloads, aggregates, writes evidence."""
 import time
 
-from . import c16, c17, c20, core, sets, vec
+from . import c16, c17, c20, core, fuzz, sets, vec
 
 ASSUME_SAN = ["ASan/UBSan/LSan red zones: an overrun that lands inside another live object is only seen through the value/ledger oracles",
               "harness element types and allocators (harness/mon) are correct", "g++ 12 / libstdc++ std::vector and std::set as reference models"]
 
 
+FUZZ_RULE = (" Coverage-guided stage: the same engine built with clang -fsanitize=fuzzer,address,undefined; every decision of the history generator is read "
+             "from libFuzzer's byte string, so coverage feedback mutates operation histories (coverage.coverage_guided: inputs executed, inputs that reached "
+             "new library/harness coverage, corpus size); same monitors, a monitor event keeps the input as replay artifact.")
+
+
+def _vec_fuzzed(prop, tier, swap2=False, **kw):
+    """random histories of the vector engine + the coverage-guided stage over the same engine"""
+    cov, viols, inc = vec.run(prop, tier, **kw)
+    cfgs = vec.FUZZ_CFGS if tier == "thorough" else vec.FUZZ_QUICK
+    if prop == "C05":
+        cfgs = [c for c in cfgs if c.inline_type]
+    runs = 150000 if tier == "thorough" else 25000
+    c2, v2, i2 = fuzz.run(prop, tier, cfgs, runs, crash_owners=vec.CRASH_OWNERS | ({prop} if prop in ("C10", "C13") else set()),
+                          env_extra={"VF_FUZZ_SWAP2": "1"} if swap2 else None)
+    cg = c2.pop("coverage_guided")
+    cov = sets.merge_cov(cov, c2)
+    cov["coverage_guided"] = cg
+    return cov, viols + v2, inc + i2
+
+
 def c01(tier):
     t0 = time.time()
-    cov, viols, inc = vec.run("C01", tier)
+    cov, viols, inc = _vec_fuzzed("C01", tier)
     cov["rule"] = ("random operation histories over a pool of 4 same-typed vectors + 2 partner vectors of another flavour, every call compared with a "
                    "std::vector model (sequence by key and unique payload, return values, returned positions, comparisons); a cell is distinct by "
-                   "(configuration, operation, operand state classes, argument class); trivial cells (default construction, destruction) are not counted")
+                   "(configuration, operation, operand state classes, argument class); trivial cells (default construction, destruction) are not counted." + FUZZ_RULE)
     return core.finish("C01", tier, "exploration", cov, viols, inc, t0, ASSUME_SAN, min_evals=1000)
 
 
 VEC_RULE = ("random operation histories over a pool of 4 same-typed vectors + 2 partner vectors of another flavour (+1 amc::vector donor for "
             "SmallVector(vector&&)); a cell is distinct by (configuration, operation, operand state classes, argument class); trivial cells "
-            "(default construction, destruction) are not counted. ")
+            "(default construction, destruction) are not counted." + FUZZ_RULE + " ")
 
 
 def _with_sets(prop, tier, flat=True, small_space=True, small_hist=True, nested=False):
     """vector histories + the set engines, for the properties whose quantifier covers vectors and sets"""
-    cov, viols, inc = vec.run(prop, tier)
+    cov, viols, inc = _vec_fuzzed(prop, tier)
     if flat:
         c2, v2, i2 = sets.run_engine(prop, tier, sets.flatset_cfgs(tier), 300, 3000, crash_owners=("C03", "C02"))
         cov, viols, inc = sets.merge_cov(cov, c2), viols + v2, inc + i2
@@ -75,7 +95,7 @@ def c06(tier):
 
 def c07(tier):
     t0 = time.time()
-    cov, viols, inc = vec.run("C07", tier)
+    cov, viols, inc = _vec_fuzzed("C07", tier)
     # swap2 between two heap-backed vectors is a swap too: the state-pair grid of C13 judges the buffer hand-over
     c2, v2, i2 = sets.run_engine("C07", tier, vec.SWAP2_QUICK + (vec.SWAP2_THOROUGH if tier == "thorough" else []), 120, 120,
                                  extra_args=["--wide"] if tier == "thorough" else [], crash_owners=())
@@ -169,7 +189,7 @@ def c10(tier):
     cfgs = vec.ALIAS_QUICK + (vec.ALIAS_THOROUGH if tier == "thorough" else [])
     cov, viols, inc = sets.run_engine("C10", tier, cfgs, 36, 36, extra_args=["--wide"] if tier == "thorough" else [], crash_owners=("C10",), any_prop=True)
     # the same aliased calls embedded in the random histories of the C01 engine
-    c2, v2, i2 = vec.run("C10", tier, hist_quick=120, hist_thorough=1200)
+    c2, v2, i2 = _vec_fuzzed("C10", tier, hist_quick=120, hist_thorough=1200)
     cov = sets.merge_cov(cov, c2)
     cov["rule"] = ("complete small-scope grid: size 1..%d x position 0..size x source index x count 0..3 x spare capacity {natural/inline, heap full (must grow), "
                    "exactly enough, more than enough} x 9 aliased call forms, per (flavour, N, element category, allocator) configuration, each judged against a "
@@ -221,7 +241,7 @@ def c13(tier):
     cfgs = vec.SWAP2_QUICK + (vec.SWAP2_THOROUGH if tier == "thorough" else [])
     cov, viols, inc = sets.run_engine("C13", tier, cfgs, 120, 120, extra_args=["--wide"] if tier == "thorough" else [], crash_owners=("C13",), any_prop=True)
     # swap2 interleaved with the other operations in random histories over mixed pools
-    c2, v2, i2 = vec.run("C13", tier, extra_args=["--swap2-heavy"], hist_quick=120, hist_thorough=1500)
+    c2, v2, i2 = _vec_fuzzed("C13", tier, swap2=True, extra_args=["--swap2-heavy"], hist_quick=120, hist_thorough=1500)
     cov = sets.merge_cov(cov, c2)
     cov["rule"] = ("state-pair grid: for each configuration pair (flavour x N x size_type x allocator type on both sides) every ordered pair of operand states "
                    "{natural/inline, heap with capacity==size, heap with spare room, heap then cleared, adopted small-capacity buffer} x sizes 0..6 (9 thorough) and "
@@ -352,7 +372,7 @@ def setup():
 def all_thorough_specs():
     cfgs = (vec.THOROUGH_EXTRA + sets.FS_THOROUGH + sets.SS_SPACE_THOROUGH + sets.SS_HIST_THOROUGH + sets.HG_THOROUGH + sets.COST_THOROUGH + vec.GROWTH_THOROUGH +
             vec.ALIAS_THOROUGH + vec.LIMITS_THOROUGH + vec.FAULT_THOROUGH + sets.SETFAULT_THOROUGH + vec.SWAP2_THOROUGH + sets.ALGO_THOROUGH + sets.NESTED_THOROUGH)
-    return [c.spec() for c in cfgs] + [c16.spec(b) for b in c16.matrix("thorough")] + [c20.spec("clang++-14")]
+    return [c.spec() for c in cfgs] + [c16.spec(b) for b in c16.matrix("thorough")] + [c20.spec("clang++-14")] + [fuzz.spec_of(c) for c in vec.FUZZ_CFGS]
 
 
 def setup_thorough():
@@ -369,6 +389,37 @@ def replay(path):
     with open(path) as f:
         d = json.load(f)
     cfgname = d.get("cfg")
+    if d.get("artifact"):
+        # found by the coverage-guided stage: the libFuzzer artifact is the history; re-execute it with the fuzz binary of that configuration
+        import os
+        import subprocess
+        for c in vec.FUZZ_CFGS:
+            if c.name == cfgname:
+                sp = fuzz.spec_of(c)
+                b = core.build_many([sp])[sp["name"]]
+                env = dict(os.environ)
+                env.update(core.ASAN_ENV)
+                outp = d["artifact"] + ".replay.jsonl"
+                if os.path.exists(outp):
+                    os.remove(outp)
+                env["VF_FUZZ_OUT"] = outp
+                if "--swap2-heavy" in d.get("args", []):
+                    env["VF_FUZZ_SWAP2"] = "1"
+                p = subprocess.run([b, d["artifact"]], stdout=subprocess.PIPE, stderr=subprocess.STDOUT, env=env, text=True)
+                n = 0
+                if os.path.exists(outp):
+                    for line in open(outp):
+                        r = json.loads(line)
+                        if r.get("t") == "viol":
+                            n += 1
+                            print("monitor %s  sig %s  op#%s\n   %s\n   %s" % (r.get("mon"), r.get("sig"), r.get("op"), r.get("desc"), r.get("detail")))
+                if p.returncode != 0 and n == 0:
+                    print("process died: %s\n%s" % (core.classify_death(p.returncode, p.stdout), p.stdout[-1500:]))
+                if p.returncode == 0:
+                    print("replay of artifact %s: no monitor fired" % d["artifact"])
+                return 0 if p.returncode == 0 else 1
+        print("configuration %s is not in the fuzz tables" % cfgname)
+        return 2
     if not cfgname or d.get("hist") is None:
         print("replay file has no (configuration, history index): %s" % json.dumps(d)[:400])
         return 2
@@ -400,6 +451,6 @@ def replay(path):
     return 1
 
 
-EXTRA_SETUP = [lambda: [c16.spec(b) for b in c16.matrix("quick")], lambda: [c20.spec()]]
+EXTRA_SETUP = [lambda: [c16.spec(b) for b in c16.matrix("quick")], lambda: [c20.spec()], lambda: [fuzz.spec_of(c) for c in vec.FUZZ_QUICK]]
 
 CHECKS = {"C01": c01, "C02": c02, "C05": c05, "C06": c06, "C07": c07, "C03": c03, "C04": c04, "C11": c11, "C12": c12, "C19": c19, "C18": c18, "C10": c10, "C08": c08, "C09": c09, "C13": c13, "C15": c15, "C16": c16_check, "C17": c17_check, "C14": c14, "C20": c20_check}
